@@ -21,7 +21,8 @@ RULE = (
     "directory dropped). Sub-check inprocess: FASTA input; cache cold vs warm vs stale-but-not-newer cache of another file vs "
     "small stream buffers (1, 7, 50, 200) vs runs interleaved with a different input in one process (A,B,A / B,A): identical "
     "files. Sub-check formats: the same FASTA-shaped assembly supplied as FASTA, as AGP (the indexer's .agp) and as TPF "
-    "(asm-format conversion of it): output assemblies equal row for row (tags included). Sub-check specimens: real specimens "
+    "(asm-format conversion of it): output assemblies equal row for row (tags included). Sub-check asm_format: asm-format on "
+    "generated assemblies to AGP/TPF/STR/REPR with --qc-overlaps under different hash seeds and working directories. Sub-check specimens: real specimens "
     "x hash seeds. Non-trivial = a map with >= 2 distinct tags on one scaffold and >= 1 cut (process / inprocess / formats); "
     "every specimen run; distinct by SHA-1."
 )
@@ -213,6 +214,45 @@ def body_formats(case, rec):
         remap.rmtree(d)
 
 
+def body_asm_format(case, rec):
+    """asm-format on the same file under different hash seeds / working directories / as a second file in one invocation"""
+    from vf.props import c05
+
+    rec.note(case, len(case["scaffolds"]) > 1, {case["out_format"]})
+    asm = remap.conv.mk_assembly("x", case["scaffolds"], header=case["header"])
+    d = remap.scratch_dir("vf-c17-")
+    try:
+        src = d / "in.agp"
+        src.write_text(c05.fmt(asm, "agp"))
+        outs = []
+        for k, (hs, rel) in enumerate([(0, False), (case["hashseed"], True), (case["hashseed"] + 1, False)]):
+            od = d / f"o{k}"
+            od.mkdir()
+            args = ["--qc-overlaps", "-f", case["out_format"]]
+            if rel:
+                r = remap.run_cli_subprocess(["../in.agp", *args, "-o", "out.txt"], cwd=od, hashseed=hs, script="asm_format")
+            else:
+                r = remap.run_cli_subprocess([src, *args, "-o", od / "out.txt"], cwd="/", hashseed=hs, script="asm_format")
+            outs.append((r.returncode, (od / "out.txt").read_bytes() if (od / "out.txt").exists() else None, r.stderr.replace(str(d), "")))
+        for k in (1, 2):
+            if outs[k][:2] != outs[0][:2]:
+                raise Violation(f"asm-format -f {case['out_format']}: run {k} (hash seed / cwd changed) differs from the baseline: exit {outs[k][0]} vs {outs[0][0]}")
+            if outs[k][2] != outs[0][2]:
+                raise Violation(f"asm-format --qc-overlaps report on stderr differs between runs: {outs[k][2][:200]!r} vs {outs[0][2][:200]!r}")
+    finally:
+        remap.rmtree(d)
+
+
+@st.composite
+def asm_format_cases(draw):
+    from vf.props import c05
+
+    c = draw(c05.assembly_cases())
+    c["out_format"] = draw(st.sampled_from(["AGP", "TPF", "STR", "REPR"]))
+    c["hashseed"] = draw(st.integers(1, 10**6))
+    return c
+
+
 def specimen_cases(tier, shard, nshards):
     data = repo_dir() / "tests" / "data"
     dirs = sorted(p.name for p in data.iterdir() if p.is_dir())
@@ -325,6 +365,8 @@ SUBS = [
         budget={"quick": 160, "thorough": 3000}, desc="cache cold / warm / stale, stream buffer, interleaved invocations in one process"),
     Sub("formats", kind="hyp", strategy=tagged_fasta_case, body=body_formats, shrink=False,
         budget={"quick": 160, "thorough": 3000}, desc="input as FASTA vs AGP vs TPF"),
+    Sub("asm_format", kind="hyp", strategy=asm_format_cases, body=body_asm_format, shrink=False,
+        budget={"quick": 64, "thorough": 1000}, desc="asm-format (AGP/TPF/STR/REPR output, --qc-overlaps report) under different hash seeds and working directories"),
     Sub("specimens", kind="enum", cases=specimen_cases, body=body_specimen,
         budget={"quick": 4, "thorough": 12}, desc="real specimens x hash seeds (and vs golden files)"),
 ]
